@@ -1,0 +1,177 @@
+//go:build verif
+
+// Contracts for package group, checked by /verif (gvc).  This file contains
+// no declarations; it is compiled only with the verif build tag.
+
+package group
+
+//@ -- ------------------------------------------------------------------ lock discipline (C13, C10)
+//@ -- A group's membership, lock, description, chat history, timestamp and data are only touched with g.mu held.
+//@ guarded Group.mu: description locked clients history timestamp data
+//@
+//@ -- what the group layer assumes of a client (interface group.Client): the callbacks do not touch the
+//@ -- group's guarded state and do not take the group's mutex; ids are immutable
+//@ iface group.Client.Id
+//@   why ids are fixed when the client is created
+//@   pure
+//@ iface group.Client.Permissions
+//@   why returns the client's current permissions (may take the client's own lock)
+//@   modifies nothing
+//@ iface group.Client.Username
+//@   why observer of the client
+//@   modifies nothing
+//@ iface group.Client.Data
+//@   why observer of the client
+//@   modifies nothing
+//@ iface group.Client.Group
+//@   why observer of the client (the group it has joined, nil if none)
+//@   pure
+//@ iface group.Client.Init
+//@   why stores username and permissions in the client
+//@   modifies nothing
+//@ iface group.Client.Joined
+//@   why queues a notification for the client (non-blocking)
+//@   modifies nothing
+//@ iface group.Client.PushClient
+//@   why queues a notification for the client (non-blocking)
+//@   modifies nothing
+//@
+//@ -- chat history is bounded (C15)
+//@ spec histwf(g *Group) bool = len(g.history) <= maxChatHistory
+//@
+//@ func (*Group).Name
+//@   safe
+//@   props C13 C12
+//@   requires nonnil: g != nil
+//@   modifies nothing
+//@   ensures name: result == g.name
+//@
+//@ func (*Group).Locked
+//@   safe
+//@   props C13 C10 C12
+//@   requires nonnil: g != nil
+//@   requires unlocked: !held(g.mu)
+//@   modifies held(g.mu)
+//@   ensures unlocked: !held(g.mu)
+//@   ensures spec: result0 == (g.locked != nil)
+//@
+//@ func (*Group).Description
+//@   safe
+//@   props C13 C12
+//@   requires nonnil: g != nil
+//@   requires unlocked: !held(g.mu)
+//@   modifies held(g.mu)
+//@   ensures unlocked: !held(g.mu)
+//@   ensures spec: same(result, g.description)
+//@
+//@ func (*Group).ClientCount
+//@   safe
+//@   props C13 C12
+//@   requires nonnil: g != nil
+//@   requires unlocked: !held(g.mu)
+//@   modifies held(g.mu)
+//@   ensures unlocked: !held(g.mu)
+//@   ensures spec: result == len(g.clients)
+//@
+//@ func (*Group).getClientsUnlocked
+//@   props C13 C10
+//@   requires nonnil: g != nil
+//@   -- "called locked"
+//@   requires locked: held(g.mu)
+//@   modifies nothing
+//@   fresh
+//@   invariant loop 1 clients: fresh(clients) || isnil(clients)
+//@
+//@ func (*Group).GetClients
+//@   safe
+//@   props C13 C12
+//@   requires nonnil: g != nil
+//@   requires unlocked: !held(g.mu)
+//@   modifies held(g.mu)
+//@   ensures unlocked: !held(g.mu)
+//@
+//@ func (*Group).getClientUnlocked
+//@   props C13 C12
+//@   requires nonnil: g != nil
+//@   requires locked: held(g.mu)
+//@   modifies nothing
+//@
+//@ func (*Group).GetClient
+//@   safe
+//@   props C13 C12
+//@   requires nonnil: g != nil
+//@   requires unlocked: !held(g.mu)
+//@   modifies held(g.mu)
+//@   ensures unlocked: !held(g.mu)
+//@
+//@ func (*Group).SetLocked
+//@   props C13 C10 C12
+//@   requires nonnil: g != nil
+//@   requires unlocked: !held(g.mu)
+//@   modifies g.locked, held(g.mu)
+//@   invariant loop 1 range: -1 <= rangeindex && rangeindex < len(clients)
+//@   ensures unlocked: !held(g.mu)
+//@   ensures spec: (g.locked != nil) == locked
+//@
+//@ -- ------------------------------------------------------------------ admission (C10) and membership (C13, C14)
+//@ func Add
+//@   trusted
+//@   why group.go Add/add: looks the group up (creating it from its description file if needed) under groups.mu and g.mu, releases both;
+//@        not yet verified here
+//@   modifies *
+//@   ensures found: isnil(result1) ==> result0 != nil && !held(result0.mu) && result0.description != nil && !isnil(result0.clients)
+//@        && ref(result0.description.NotBefore) != ref(result0) && ref(result0.description.Expires) != ref(result0)
+//@
+//@ func (*Description).GetPermission
+//@   trusted
+//@   why verified separately for C08 (not yet); here only: no effect on the group
+//@   modifies nothing
+//@
+//@ func autoLockKick
+//@   props C10 C13
+//@   requires nonnil: g != nil && g.description != nil
+//@   -- "called locked" in the source
+//@   requires locked: held(g.mu)
+//@   modifies g.locked
+//@   invariant loop 1 range: -1 <= rangeindex$1 && rangeindex$1 < len(clients)
+//@   invariant loop 2 range: -1 <= rangeindex$2 && rangeindex$2 < len(clients)
+//@   invariant loop 2 locked-now: g.locked != nil
+//@   ensures still-locked: held(g.mu)
+//@   -- C10: an existing lock is never replaced or lifted here
+//@   ensures keeps-lock: old(g.locked) != nil ==> same(g.locked, old(g.locked))
+//@   -- C10: it locks only groups configured with autolock
+//@   ensures only-autolock: old(g.locked) == nil && g.locked != nil ==> g.description.Autolock
+//@
+//@ func DelClient
+//@   props C10 C13 C14
+//@   requires nonnil: c != nil
+//@   requires unlocked: isnil(icall("group.Client.Group", c)) || (!held(icall("group.Client.Group", c).mu) && icall("group.Client.Group", c).description != nil)
+//@   modifies *
+//@   invariant loop 1 range: -1 <= rangeindex && rangeindex < len(clients)
+//@   ensures unlocked: isnil(icall("group.Client.Group", c)) || !held(icall("group.Client.Group", c).mu)
+//@
+//@ func AddClient
+//@   props C10 C13 C14
+//@   requires nonnil: c != nil
+//@   modifies *
+//@   invariant loop 1 range: -1 <= rangeindex$1 && rangeindex$1 < len(clients)
+//@   invariant loop 1 locked: held(g.mu) && g != nil && g.description != nil
+//@   invariant loop 2 range: -1 <= rangeindex$2 && rangeindex$2 < len(clients)
+//@   invariant loop 2 locked: held(g.mu) && g != nil
+//@   ensures consistent: isnil(result1) == (result0 != nil)
+//@   ensures unlocked: result0 != nil ==> !held(result0.mu)
+//@   -- C10: a non-operator (that is not a system client) is never admitted to a locked group ...
+//@   ensures not-locked: isnil(result1) && !callresult("Contains[[]string string]", 1) && !call("slices.Contains[[]string string]", perms, "op") ==> result0.locked == nil
+//@   -- ... nor to a full one (operators are exempt)
+//@   ensures not-full: isnil(result1) && !callresult("Contains[[]string string]", 1) && !call("slices.Contains[[]string string]", perms, "op") && result0.description.MaxClients > 0 ==>
+//@        len(result0.clients) <= result0.description.MaxClients
+//@   -- ... nor outside the group's time window
+//@   ensures not-early: isnil(result1) && !callresult("Contains[[]string string]", 1) && !call("slices.Contains[[]string string]", perms, "op") && result0.description.NotBefore != nil ==>
+//@        !call("(time.Time).After", *result0.description.NotBefore, now)
+//@   ensures not-late: isnil(result1) && !callresult("Contains[[]string string]", 1) && !call("slices.Contains[[]string string]", perms, "op") && result0.description.Expires != nil ==>
+//@        !call("(time.Time).Before", *result0.description.Expires, now)
+//@   -- ... nor, with autokick, when no operator was found among the members
+//@   ensures autokick-needs-op: isnil(result1) && !callresult("Contains[[]string string]", 1) && !call("slices.Contains[[]string string]", perms, "op") && result0.description.Autokick ==> ops
+//@   -- C10: on success the client is the member registered under its id; ids are unique
+//@   ensures member: isnil(result1) ==> has(result0.clients, icall("group.Client.Id", c)) && same(result0.clients[icall("group.Client.Id", c)], c)
+//@        && icall("group.Client.Id", c) != ""
